@@ -354,3 +354,106 @@ package value
 //@               (forall j int :: p <= j && j < old(len(hm.keyOrder)) - 1 ==> hm.keyOrder[j] == old(hm.keyOrder[j+1])) &&
 //@               (forall j int :: p < j && j < old(len(hm.keyOrder)) ==> hm.keyOrder[j-1] == old(hm.keyOrder[j])) &&
 //@               old(hm.keyOrder)[old(len(hm.keyOrder)) - 1] == old(hm.keyOrder[len(hm.keyOrder) - 1]))
+
+// ---- remaining members: safety (C10) ----
+
+// every method registered in a class model is a non-nil function
+//@ typeinv ClassModel (forall k string :: has(self.methodList, k) ==> self.methodList[k] != nil) && (forall k string :: has(self.compPropList, k) ==> self.compPropList[k] != nil)
+
+//@ external (*regexp.Regexp).FindStringSubmatch(re, s) (m)
+//@   pure
+//@   ensures m.base == 0 || len(m) == 3
+//@   ensures s == "string+" ==> m.base != 0 && m[1] == "string" && m[2] == "+"
+
+//@ func ValidateLeastParams
+//@   modifies nothing
+//@   ensures [all-strings] result == nil && len(typeStr) == 1 && typeStr[0] == "string+" ==>
+//@             (forall i int :: 0 <= i && i < len(values) ==> is(values[i], *String))
+//@   loop 1 invariant len(typeStr) == 1 && typeStr[0] == "string+" ==> rangeindex < 0
+//@   loop 2 invariant matches.base != 0 && len(matches) == 3 && 0 <= i && idx >= 0 && sameMem(matches)
+//@   loop 2 invariant len(typeStr) == 1 && typeStr[0] == "string+" ==> idx == 0 && matches[1] == "string" &&
+//@             (forall j int :: 0 <= j && j < i && j < len(values) ==> is(values[j], *String))
+
+//@ func CompareValues
+//@   requires okElem(left) && okElem(right)
+//@   modifies nothing
+
+//@ func DuplicateValue
+//@   requires okElem(in)
+//@   modifies nothing
+//@   ensures okElem(result)
+//@   ensures is(in, *Object) || is(in, *Function) || is(in, *Null) || is(in, *GoValue) ==> result == in
+//@   loop 1 invariant newArr.base == 0 || fresh(newArr)
+//@   loop 2 invariant kvPairs.base == 0 || fresh(kvPairs)
+
+//@ func NewHashMap
+//@   modifies nothing
+//@   ensures fresh(result) && hmWF(result)
+//@   loop 1 invariant hmWF(hm) && fresh(hm) && fresh(hm.value) && (hm.keyOrder.base == 0 || fresh(hm.keyOrder)) && sameMem(kvPairs)
+
+//@ func NewObject
+//@   requires model != nil
+//@   modifies nothing
+//@   ensures fresh(result) && result != nil && result.model == model && fresh(result.propList)
+//@   loop 1 invariant fresh(objPropList)
+
+//@ func NewFunction
+//@   requires executor != nil
+//@   modifies nothing
+//@   ensures fresh(result) && result != nil && result.logicHandler == executor
+
+//@ func NewClassModel
+//@   modifies nothing
+//@   ensures fresh(result) && result != nil
+
+//@ func NewArrayIV
+//@   requires okElem(root)
+//@   modifies nothing
+//@   ensures fresh(result) && result != nil && result.reduceType == IVTypeArray && result.root == root && result.index == index
+//@ func NewHashMapIV
+//@   requires okElem(root)
+//@   modifies nothing
+//@   ensures fresh(result) && result != nil && result.reduceType == IVTypeHashMap && result.root == root && result.member == member
+//@ func NewMemberIV
+//@   requires okElem(root)
+//@   modifies nothing
+//@   ensures fresh(result) && result != nil && result.reduceType == IVTypeMember && result.root == root && result.member == member
+
+//@ method (*ClassModel).DefineProperty
+//@   requires okElem(defaultValue)
+//@   modifies map(cm.propList)
+//@   ensures result == cm
+//@ method (*ClassModel).DefineMethod
+//@   requires methodFunc != nil
+//@   modifies map(cm.methodList)
+//@   ensures result == cm
+//@ method (*ClassModel).DefineCompProperty
+//@   requires compFunc != nil
+//@   modifies map(cm.compPropList)
+//@   ensures result == cm
+//@ method (*ClassModel).SetConstructor
+//@   requires fn != nil
+//@   modifies cm.constructor
+//@   ensures result == cm && cm.constructor == fn
+
+//@ method (*Function).Exec
+//@   requires okElem(thisValue) || thisValue == nil
+//@   modifies *
+//@   ensures r1 == nil ==> okElem(r0)
+
+//@ method (*HashMap).String
+//@   requires hmWF(hm)
+//@   pure
+//@   loop 1 invariant (strItem.base == 0 || fresh(strItem)) && sameMem(hm.keyOrder)
+
+//@ func hmExecGet
+//@   requires hmWF(hm)
+//@   modifies nothing
+//@   ensures r1 == nil ==> okElem(r0)
+//@   loop 1 invariant okElem(result) && (forall i int :: 0 <= i && i < len(values) ==> is(values[i], *String))
+
+//@ func strExecFormat
+//@   requires s != nil
+//@   modifies nothing
+//@   ensures r1 == nil ==> okElem(r0)
+//@   loop 1 invariant (replacerArgs.base == 0 || fresh(replacerArgs)) && sameMem(values) && (forall i int :: 0 <= i && i < len(values) ==> is(values[i], *String))
